@@ -79,7 +79,10 @@ class BinOp(common.SpaceMixin, Obligation):
     validate_paths = 6
     twin_modules = ('PseudoNetCDF.core._files', 'PseudoNetCDF.core._functions')
 
-    def __init__(self, shape, op, mask2=None, label=None):
+    def __init__(self, shape, op, mask2=None, label=None, nonfinite=False):
+        # nonfinite: the last cell of A is +inf in the left operand and 1.5
+        # in the right one (concrete): the result there is non-finite
+        self.nonfinite = nonfinite
         self.spec = _fspec(shape, label or 'x'.join(map(str, shape)))
         self.spec2 = _fspec(shape, 'rhs')
         if mask2 is not None:
@@ -87,7 +90,8 @@ class BinOp(common.SpaceMixin, Obligation):
                 if v.name == 'M':
                     v.masked = mask2
         self.op = op
-        self.name = 'binop[%s|%s|m2=%s]' % (self.spec.label, op, mask2)
+        self.name = 'binop[%s|%s|m2=%s%s]' % (
+            self.spec.label, op, mask2, '|inf-operand' if nonfinite else '')
         self.bounds = {'shape': shape, 'op': op,
                        'operand values': '[-1000, 1000] (reals / integers)'}
 
@@ -111,13 +115,23 @@ class BinOp(common.SpaceMixin, Obligation):
                 if isinstance(x, symx.SymReal):
                     ctx.assume(z3.Or(x.e == 0, x.e >= z3.Q(1, 10 ** 6),
                                      x.e <= -z3.Q(1, 10 ** 6)), check=False)
+        self._inf_cells(v1, v2)
         return v1, v2
+
+    def _inf_cells(self, v1, v2):
+        if self.nonfinite:
+            last = max(i for (n, i) in v1 if n == 'A')
+            v1[('A', last)] = float('inf')
+            v2[('A', last)] = 1.5
 
     def _expected_cell(self, a, b, ma, mb):
         """(z3 mask condition, value or None)"""
         if ma or mb:
             return z3.BoolVal(True), None
         op = self.op
+        if isinstance(a, float) and a == float('inf'):
+            # inf (+,-,*) 1.5 is non-finite: masked
+            return z3.BoolVal(True), None
         if op in ('/', '//', '%'):
             isint = isinstance(a, (int, symx.SymInt)) and \
                 isinstance(b, (int, symx.SymInt)) and not isinstance(a, bool)
@@ -228,6 +242,7 @@ class BinOp(common.SpaceMixin, Obligation):
                 v2[(v.name, i)] = [2, 0, 3, 1][i % 4]
         else:
             v2 = common.concrete_values(self.spec2, inputs, prefix='b')
+        self._inf_cells(v1, v2)
         f1 = common.build(RF.PseudoNetCDFFile, self.spec, v1, False)
         f2 = common.build(RF.PseudoNetCDFFile, self.spec2, v2, False)
         f1.setCoords([self._coord()])
@@ -251,7 +266,8 @@ class BinOp(common.SpaceMixin, Obligation):
             o = {}
             for (n, i), x in vals.items():
                 kind = [v.kind for v in spec.vars if v.name == n][0]
-                o[(n, i)] = int(x) if kind == 'int' else fractions.Fraction(x)
+                o[(n, i)] = int(x) if kind == 'int' else (
+                    x if x == float('inf') else fractions.Fraction(x))
             return o
         s1 = common.source_arrays(self.spec, tofrac(v1, self.spec), False)
         s2 = common.source_arrays(self.spec2, tofrac(v2, self.spec2), False)
@@ -564,6 +580,10 @@ def obligations(tier):
             if shape == shapes[0] or tier == 'thorough':
                 obs.append(BinOp(shape, op, (1,)))
                 obs.append(BinOp(shape, op, ()))
+        if shape == shapes[0] or tier == 'thorough':
+            # a non-finite operand cell: the result there must be masked
+            for op in ('+', '-', '*'):
+                obs.append(BinOp(shape, op, (), nonfinite=True))
         for key in EXPRS:
             for ca in (False, True):
                 obs.append(Eval(shape, key, ca))
